@@ -173,13 +173,19 @@ class Text(Monitor):
                     self.amount_check(world, 'create_solution', float(m.group(1)), m.group(2), n, true, case, sp.kind)
             else:
                 src_before = world.pool[op['solvent']['c']].view
+                came_with_solvent = {n: world.base(src_before).get(n, 0.0) - world.base(out.new_entries[0].view).get(n, 0.0)
+                                     for n in solute_names}
+                if any(x > 0 for x in came_with_solvent.values()):
+                    col.label('solution:solvent-container-holds-a-solute')
                 for n in solute_names:
                     m = re.search(rf'({NUM}) (\S+) of {re.escape(n)}(?:,| to )', text)
                     if not m:
                         col.report('create_solution/substance-not-named', {'substance': n, 'text': text[:160]}, case)
                         continue
                     sp = ref.subs[n]
-                    true = {f: base.get(n, 0.0) * sp.factor(f) for f in ('L', 'g', 'U', 'mol') if sp.factor(f) > 0}
+                    # what is ADDED: what the solution holds minus what came in with the aliquot of the solvent container
+                    added = base.get(n, 0.0) - max(came_with_solvent[n], 0.0)
+                    true = {f: added * sp.factor(f) for f in ('L', 'g', 'U', 'mol') if sp.factor(f) > 0}
                     self.amount_check(world, 'create_solution', float(m.group(1)), m.group(2), n, true, case, sp.kind)
                 m = re.search(rf' to ({NUM}) (\S+) of {re.escape(src_before["name"])}\.', text)
                 if not m:
@@ -326,7 +332,10 @@ def helper_std(col, pp, cfg, sub_json, stored, as_container):
 
 PROFILE = {'weights': {'transfer': 6, 'container': 4, 'plate': 1, 'remove': 1, 'fill_to': 3, 'slice': 1,
                        'create_solution': 2, 'dilute': 3, 'create_solution_from': 2},
-           'q_modes': ['frac'] * 9 + ['whole'], 'self_transfer': False, 'solvent_containers': True}
+           'q_modes': ['frac'] * 9 + ['whole'], 'self_transfer': False, 'solvent_containers': True,
+           # (for the text only: a solvent container may already hold some of a solute; whether such a call succeeds is
+           # not judged anywhere, but if it returns, the instruction must state what is added)
+           'solvent_may_hold_solute': True}
 
 
 def run(col):
